@@ -65,6 +65,29 @@ func interpMain(seed uint64, n int, outDir, gen string) error {
 	case "c05":
 		product = c05Product(rnd.Fork("c05"), n)
 	}
+	if gen == "c02" {
+		// every program x every cancellation instant 0..kmax
+		kmax := 40
+		if n > 20000 {
+			kmax = 120
+		}
+		progs := c02Programs()
+		for _, src := range progs {
+			for k := 0; k <= kmax; k++ {
+				line, c, ok := interpLine(src, k)
+				if !ok {
+					parseFail++
+					break
+				}
+				sb.WriteString(line + "\n")
+				enc.Encode(c)
+				count++
+			}
+			kinds["program"]++
+		}
+		distinct = len(progs)
+		n = 0
+	}
 	c07 := &c07Gen{r: rnd.Fork("c07")}
 	for count < n {
 		var src string
